@@ -29,6 +29,55 @@ impl Case {
     }
 }
 
+fn tar_pad(v: &mut Vec<u8>) {
+    while v.len() % 512 != 0 {
+        v.push(0);
+    }
+}
+pub fn tar_plain_member(name: &str, content: &[u8]) -> Vec<u8> {
+    let mut h = tar::Header::new_ustar();
+    h.set_path(name).unwrap();
+    h.set_size(content.len() as u64);
+    h.set_mode(0o644);
+    h.set_entry_type(tar::EntryType::Regular);
+    h.set_cksum();
+    let mut out = h.as_bytes().to_vec();
+    out.extend_from_slice(content);
+    tar_pad(&mut out);
+    out
+}
+/// A regular member whose size is carried by a pax extended header ("NN size=N\n").
+pub fn tar_pax_sized_member(name: &str, content: &[u8]) -> Vec<u8> {
+    let rec = format!(" size={}\n", content.len());
+    let mut l = rec.len() + 1;
+    let body = loop {
+        let s = format!("{l}{rec}");
+        if s.len() == l {
+            break s;
+        }
+        l = s.len();
+    };
+    let mut x = tar::Header::new_ustar();
+    x.set_path(format!("PaxHeaders.0/{name}")).unwrap();
+    x.set_size(body.len() as u64);
+    x.set_mode(0o644);
+    x.set_entry_type(tar::EntryType::XHeader);
+    x.set_cksum();
+    let mut out = x.as_bytes().to_vec();
+    out.extend_from_slice(body.as_bytes());
+    tar_pad(&mut out);
+    let mut h = tar::Header::new_ustar();
+    h.set_path(name).unwrap();
+    h.set_size(0);
+    h.set_mode(0o644);
+    h.set_entry_type(tar::EntryType::Regular);
+    h.set_cksum();
+    out.extend_from_slice(h.as_bytes());
+    out.extend_from_slice(content);
+    tar_pad(&mut out);
+    out
+}
+
 fn mk_repeat(r: i64) -> Repeat {
     if r < 0 { Repeat::infinite() } else { Repeat::finite(r as u64) }
 }
@@ -53,7 +102,16 @@ fn build(c: &Case, dir: &std::path::Path) -> Result<Dut, String> {
             _ => {
                 // SigMF has no u32 type: use f32 with the same bit patterns (finite values only matter bitwise)
                 let meta = "{\"global\":{\"core:datatype\":\"rf32_le\",\"core:version\":\"1.1.0\"},\"captures\":[{\"core:sample_start\":0}],\"annotations\":[]}";
-                let path = if c.kind.contains("archive") {
+                let path = if c.kind.contains("archive") && c.seed % 5 == 2 {
+                    // POSIX pax: the data member's size comes in an extended header record and the
+                    // ustar size field is zero (what writers do for members the field cannot hold)
+                    let p = dir.join("rec.sigmf");
+                    let mut ar = tar_plain_member("c.sigmf-meta", meta.as_bytes());
+                    ar.extend(tar_pax_sized_member("c.sigmf-data", &bytes));
+                    ar.extend(std::iter::repeat(0u8).take(1024));
+                    std::fs::write(&p, ar).map_err(|e| e.to_string())?;
+                    p
+                } else if c.kind.contains("archive") {
                     let p = dir.join("rec.sigmf");
                     let f = std::fs::File::create(&p).map_err(|e| e.to_string())?;
                     let mut tb = tar::Builder::new(f);
